@@ -172,7 +172,8 @@ void RecordReader::Init(FILE *file, std::size_t entry_size) {
   UTIL_THROW_IF(!data_.get(), util::ErrnoException, "Failed to malloc read buffer");
   file_ = file;
   if (file) {
-    rewind(file);
+    // Not rewind(): that would discard the error of a failed flush of buffered writes.
+    UTIL_THROW_IF(fseek(file, 0, SEEK_SET), util::ErrnoException, "Couldn't flush and seek to the beginning");
     remains_ = true;
     ++*this;
   } else {
@@ -193,7 +194,7 @@ void RecordReader::Overwrite(const void *start, std::size_t amount) {
 
 void RecordReader::Rewind() {
   if (file_) {
-    rewind(file_);
+    UTIL_THROW_IF(fseek(file_, 0, SEEK_SET), util::ErrnoException, "Couldn't flush and seek to the beginning");
     remains_ = true;
     ++*this;
   } else {
